@@ -133,9 +133,8 @@ def coq_build(log):
         log.append(out)
         if rc != 0:
             return False, 'translator srcparams failed: ' + out.strip()[-500:]
-    if not os.path.exists(os.path.join(COQ, 'Makefile')):
-        rc, out = sh('coq_makefile -f _CoqProject -o Makefile', cwd=COQ)
-        if rc != 0: return False, 'coq_makefile failed: ' + out
+    rc, out = sh(['sh', os.path.join(COQ, 'mkproject.sh')])
+    if rc != 0: return False, 'coq_makefile failed: ' + out
     rc, out = sh('timeout 3000 make -j16 2>&1', cwd=COQ)
     log.append(out[-4000:])
     if rc != 0:
